@@ -188,6 +188,21 @@ def used_bins(fft, used):
     return [b for b in range(fft) if b not in silent]
 
 
+def count_class(case):
+    """qualifier for large COUNTS (R14), computed from the input"""
+    q = ''
+    if case.get('fft', 0) > 256:
+        q += ',fft>256'
+    n = len(case.get('x', []))
+    if case.get('used') and n / case['used'] > 256:
+        q += ',symbols>256'
+    if n > 65536:
+        q += ',input>2^16'
+    if len(case.get('delays', [])) > 256:
+        q += ',taps>256'
+    return q
+
+
 def cfg_class(case):
     fft, cp, used = case['fft'], case['cp'], case['used']
     c = 'used<fft' if used < fft else 'used==fft'
@@ -195,7 +210,7 @@ def cfg_class(case):
         c += ',cp==0'
     elif cp == fft:
         c += ',cp==fft'
-    return c
+    return c + count_class(case)
 
 
 def o_constructor(case):
@@ -487,7 +502,7 @@ def o_onetap(case):
     cond = hmax / hmin
     qual = ''
     if cls != 'memory==fft':                          # the known-finding class keeps its exact name
-        qual = (',notch<=1e-3' if cond >= 1e3 else '') + scale_class(x) + scale_class(dense) + pq
+        qual = (',notch<=1e-3' if cond >= 1e3 else '') + scale_class(x) + scale_class(dense) + pq + count_class(case)
     try:
         dem = obj.demodulate(np.array(rx[:tx.size], copy=True))
         eq = o.OfdmOneTapEqualizer(obj).equalize_data(dem, ir)
@@ -815,7 +830,374 @@ def o_rejected(case):
     return None
 
 
-ORACLES = {'types': o_types, 'layout': o_layout, 'immut': o_immut, 'rejected': o_rejected,
+# ------------------------------------------------------------------ robustness classes R8-R14 (oracles)
+def _static_gen(draw):
+    _, fg = _fading()
+
+    class StaticGen(fg.RayleighSampleGenerator):
+        def __init__(self, vals):
+            self._vals = np.asarray(vals, dtype=complex)
+            super().__init__(shape=None)
+
+        def generate_more_samples(self, num_samples=None):
+            n = 1 if num_samples is None else int(num_samples)
+            k = self._shape[0] if self._shape else 1
+            self._samples = np.repeat(np.resize(self._vals, k)[:, None], n, axis=1)
+
+        def skip_samples_for_next_generation(self, num_samples):
+            pass
+    return StaticGen(draw)
+
+
+def _eq_arr(a, b):
+    a, b = np.asarray(a), np.asarray(b)
+    return a.shape == b.shape and np.array_equal(a, b, equal_nan=True)
+
+
+OFDM_FORMS = ['keywords', 'mixed', 'default-omitted', 'default-none', 'default-none-keyword', 'setter', 'setter-keywords',
+              'setter-default', 'replaced-twice', 'call-keywords']
+CHANNEL_FORMS = ['profile-object', 'profile-prediscretised', 'profile-prediscretised-Ts', 'positional', 'Ts-default',
+                 'int-tap-arrays']
+
+
+def _build_ofdm(o, form, f, c, u, other):
+    """the same configuration reached through another documented argument form / path"""
+    if form == 'keywords':
+        return o.OFDM(fft_size=f, cp_size=c, num_used_subcarriers=u)
+    if form == 'mixed':
+        return o.OFDM(f, num_used_subcarriers=u, cp_size=c)
+    if form == 'default-omitted':
+        return o.OFDM(f, c)
+    if form == 'default-none':
+        return o.OFDM(f, c, None)
+    if form == 'default-none-keyword':
+        return o.OFDM(f, cp_size=c, num_used_subcarriers=None)
+    obj = o.OFDM(*other)
+    if form == 'setter':
+        obj.set_parameters(f, c, u)
+    elif form == 'setter-keywords':
+        obj.set_parameters(num_used_subcarriers=u, cp_size=c, fft_size=f)
+    elif form == 'setter-default':
+        obj.set_parameters(f, c)
+    elif form == 'replaced-twice':
+        obj.set_parameters(f, c, u)
+        obj.set_parameters(*other)
+        try:
+            obj.set_parameters(f, c + f + 1, u)          # rejected in between
+        except ValueError:
+            pass
+        obj.set_parameters(fft_size=f, cp_size=c, num_used_subcarriers=u)
+    else:
+        return o.OFDM(f, c, u)
+    return obj
+
+
+def _build_channel(form, delays, powers_db, draw):
+    fading, _ = _fading()
+    p = np.array(powers_db, dtype=float)
+    d = np.array(delays, dtype=float)
+    g = _static_gen(draw)
+    if form == 'profile-object':
+        return fading.TdlChannel(g, channel_profile=fading.TdlChannelProfile(p, d), Ts=1.0)
+    if form == 'profile-prediscretised':
+        return fading.TdlChannel(g, channel_profile=fading.TdlChannelProfile(p, d).get_discretize_profile(1.0))
+    if form == 'profile-prediscretised-Ts':
+        return fading.TdlChannel(g, fading.TdlChannelProfile(tap_delays=d, tap_powers_dB=p).get_discretize_profile(Ts=1.0), Ts=1.0)
+    if form == 'positional':
+        return fading.TdlChannel(g, None, p, d, 1.0)
+    if form == 'Ts-default':
+        return fading.TdlChannel(g, tap_delays=d, tap_powers_dB=p)         # Rayleigh-type generator: Ts defaults to 1
+    if form == 'int-tap-arrays':                                          # R10: integer dtype arrays next to float ones
+        return fading.TdlChannel(g, tap_powers_dB=np.round(p).astype(np.int32) if np.all(np.round(p) == p) else p,
+                                 tap_delays=np.array(delays).astype(np.int16), Ts=1.0)
+    return fading.TdlChannel(g, tap_powers_dB=p, tap_delays=d, Ts=1.0)
+
+
+def o_forms(case):
+    """R8 (and R10 for the tap arrays): every documented argument form / configuration path gives exactly the
+    object and the results of the plain positional one"""
+    o = _ofdm()
+    f, c, u = case['fft'], case['cp'], case['used']
+    form = case['form']
+    x = cx(case['x'])
+    ref = o.OFDM(f, c, u)
+    ref_eq = o.OfdmOneTapEqualizer(ref)
+    ch = _build_channel('reference', case['delays'], case['powers_dB'], cx(case['draw']))
+    tx = ref.modulate(x.copy())
+    rx = ch.corrupt_data(np.array(tx, copy=True))
+    ir = ch.get_last_impulse_response()
+    dem = ref.demodulate(np.array(rx[:tx.size], copy=True))
+    out = ref_eq.equalize_data(np.array(dem, copy=True), ir)
+    label = 'R8:' + form
+    try:
+        if form in CHANNEL_FORMS:
+            if form == 'int-tap-arrays':
+                label = 'R10:int-tap-arrays'
+                if any(float(v) != int(v) for v in case['delays']):
+                    return None
+            ch2 = _build_channel(form, case['delays'], case['powers_dB'], cx(case['draw']))
+            rx2 = ch2.corrupt_data(np.array(tx, copy=True))
+            ir2 = ch2.get_last_impulse_response()
+            if not _eq_arr(ir2.tap_indexes_sparse, ir.tap_indexes_sparse):
+                return label + ':tap-indexes', '%r vs %r' % (list(ir2.tap_indexes_sparse), list(ir.tap_indexes_sparse))
+            if not np.allclose(ir2.tap_values_sparse, ir.tap_values_sparse, rtol=1e-12, atol=0) or rx2.shape != rx.shape \
+                    or not np.allclose(rx2, rx, rtol=1e-12, atol=1e-300):
+                return label + ':channel-output', 'differs from TdlChannel(gen, tap_powers_dB=, tap_delays=, Ts=1.0)'
+            if not _eq_arr(ir2.get_freq_response(fft_size=f), ir2.get_freq_response(f)):
+                return label + ':get_freq_response-keyword', 'keyword vs positional'
+            return None
+        other = tuple(case['other'])
+        if form in ('default-omitted', 'default-none', 'default-none-keyword', 'setter-default') and u != f:
+            return None
+        obj = _build_ofdm(o, form, f, c, u, other)
+        if (obj.fft_size, obj.cp_size, obj.num_used_subcarriers) != (f, c, u):
+            return label + ':attributes', repr((obj.fft_size, obj.cp_size, obj.num_used_subcarriers))
+        if form == 'call-keywords':
+            eqz = o.OfdmOneTapEqualizer(ofdm_obj=obj)
+            tx2 = obj.modulate(input_signal=x.copy())
+            dem2 = obj.demodulate(received_signal=np.array(rx[:tx.size], copy=True))
+            out2 = eqz.equalize_data(impulse_response=ir, data=np.array(dem2, copy=True))
+        else:
+            eqz = o.OfdmOneTapEqualizer(obj)
+            tx2 = obj.modulate(x.copy())
+            dem2 = obj.demodulate(np.array(rx[:tx.size], copy=True))
+            out2 = eqz.equalize_data(np.array(dem2, copy=True), ir)
+    except Exception as e:
+        return label + ':raises', '%s: %s' % (type(e).__name__, str(e)[:150])
+    if not _eq_arr(obj.get_used_subcarrier_indexes(), ref.get_used_subcarrier_indexes()):
+        return label + ':index-map', 'differs from the positional constructor'
+    for name, a, b in (('modulate', tx2, tx), ('demodulate', dem2, dem), ('equalize_data', out2, out)):
+        if not _eq_arr(a, b):
+            return label + ':' + name, 'differs from the positional constructor / call'
+    return None
+
+
+INDEX_TYPES = ['intp', 'int64', 'int32', 'uint16', '0-d-array', '0-d-uint8', 'fresh-int', 'bool-cp']
+
+
+def o_indexarg(case):
+    """R9: sizes, counts and transform lengths given as numpy integers of any width, np.intp, 0-d arrays, bool, and
+    python ints above 256 that are distinct objects: everything behaves as for the plain python ints"""
+    o = _ofdm()
+    f, c, u = case['fft'], case['cp'], case['used']
+    ty = case['type']
+    label = 'R9:' + ty + (',size>256' if f > 256 else '')
+    x = cx(case['x'])
+
+    def conv(v):
+        if ty == '0-d-array':
+            return np.array(v)
+        if ty == '0-d-uint8':
+            return np.array(v, dtype=np.uint8 if v < 256 else np.uint16)
+        if ty == 'fresh-int':
+            return int(str(v))                      # equal value, distinct object (matters above 256)
+        if ty == 'bool-cp':
+            return v
+        return getattr(np, ty)(v)
+    ref = o.OFDM(f, c, u)
+    ch = make_static_channel(case['delays'], case['powers_dB'], cx(case['draw']))
+    try:
+        if ty == 'bool-cp':
+            obj = o.OFDM(conv(f), True, conv(u))
+            ref = o.OFDM(f, 1, u)
+        else:
+            obj = o.OFDM(conv(f), conv(c), conv(u))
+        eqz = o.OfdmOneTapEqualizer(obj)
+        tx = obj.modulate(x.copy())
+        tx0 = ref.modulate(x.copy())
+        rx = ch.corrupt_data(np.array(tx0, copy=True))
+        ir = ch.get_last_impulse_response()
+        dem = obj.demodulate(np.array(rx[:tx0.size], copy=True))
+        out = eqz.equalize_data(np.array(dem, copy=True), ir)
+        zp = tuple(int(v) for v in obj._calc_zeropad(conv(x.size) if ty != 'bool-cp' else x.size))
+        H1 = ir.get_freq_response(conv(f) if ty != 'bool-cp' else f)
+    except Exception as e:
+        return label + ':raises', '%s: %s' % (type(e).__name__, str(e)[:150])
+    dem0 = ref.demodulate(np.array(rx[:tx0.size], copy=True))
+    out0 = o.OfdmOneTapEqualizer(ref).equalize_data(np.array(dem0, copy=True), ir)
+    if not _eq_arr(obj.get_used_subcarrier_indexes(), ref.get_used_subcarrier_indexes()):
+        return label + ':index-map', 'differs from the python-int twin (%r)' % (obj.get_used_subcarrier_indexes()[:4],)
+    for name, a, b in (('modulate', tx, tx0), ('demodulate', dem, dem0), ('equalize_data', out, out0),
+                       ('get_freq_response', H1, ir.get_freq_response(f))):
+        if not _eq_arr(a, b):
+            return label + ':' + name, 'differs from the python-int twin'
+    if zp != tuple(int(v) for v in ref._calc_zeropad(x.size)):
+        return label + ':_calc_zeropad', repr(zp)
+    return None
+
+
+QUERIES = ['get_used_subcarrier_indexes', '_get_subcarrier_numbers', '_get_used_subcarrier_numbers', '_calc_zeropad',
+           '_calculate_power_scale', 'repr', 'modulate', 'demodulate', 'equalize_data', 'ir.tap_values', 'ir.get_freq_response',
+           'ir.properties', 'ir.scaled', 'profile.properties', 'channel.properties', 'ir.plot']
+
+
+def _do_query(q, obj, eqz, ch, ir, x, rng_n):
+    if q == 'get_used_subcarrier_indexes':
+        obj.get_used_subcarrier_indexes()[...] = 0
+    elif q == '_get_subcarrier_numbers':
+        obj._get_subcarrier_numbers()[...] = 0
+    elif q == '_get_used_subcarrier_numbers':
+        obj._get_used_subcarrier_numbers()[...] = 0
+    elif q == '_calc_zeropad':
+        obj._calc_zeropad(rng_n)
+    elif q == '_calculate_power_scale':
+        obj._calculate_power_scale()
+    elif q == 'repr':
+        repr(obj), str(obj), repr(eqz), repr(ir), repr(ch.channel_profile)
+    elif q == 'modulate':
+        obj.modulate(x.copy())
+    elif q == 'demodulate':
+        obj.demodulate(np.zeros(2 * (obj.fft_size + obj.cp_size), dtype=complex))
+    elif q == 'equalize_data':
+        eqz.equalize_data(np.ones(obj.num_used_subcarriers * 0, dtype=complex), ir)
+    elif q == 'ir.tap_values':
+        ir.tap_values, ir.tap_values_sparse, ir.tap_indexes_sparse, ir.tap_delays_sparse
+    elif q == 'ir.get_freq_response':
+        for n in (obj.fft_size, 2 * obj.fft_size, max(1, obj.fft_size // 2)):
+            H = ir.get_freq_response(n)
+            H[...] = 0                                 # the caller scribbles over the returned array
+    elif q == 'ir.properties':
+        ir.num_samples, ir.Ts, ir.channel_profile
+    elif q == 'ir.scaled':
+        (2.0 * ir), (ir * 0.5)
+    elif q == 'profile.properties':
+        pr = ch.channel_profile
+        pr.mean_excess_delay, pr.rms_delay_spread, pr.name, pr.tap_powers_dB, pr.tap_powers_linear, pr.tap_delays, pr.num_taps
+        pr.num_taps_with_padding, pr.Ts, pr.is_discretized
+    elif q == 'channel.properties':
+        ch.num_taps, ch.num_taps_with_padding, ch.num_tx_antennas, ch.num_rx_antennas, ch.switched_direction
+        ch.get_last_impulse_response()
+    elif q == 'ir.plot':
+        try:
+            import matplotlib
+            matplotlib.use('Agg')
+            import matplotlib.pyplot as plt
+        except Exception:
+            return
+        ir.plot_frequency_response(obj.fft_size)
+        plt.close('all')
+
+
+def o_nomutate(case):
+    """R11: calls that are not setters (queries, private calc helpers, repr, properties, plot helper, the processing
+    methods themselves) placed between the mutators of a history change neither the configuration nor any later result"""
+    o = _ofdm()
+    f, c, u = case['init']
+    obj = o.OFDM(f, c, u)
+    eqz = o.OfdmOneTapEqualizer(obj)
+    cur = (f, c, u)
+    for k, st in enumerate(case['steps']):
+        if st.get('set') is not None:
+            f, c, u = st['set']
+            try:
+                obj.set_parameters(f, c, u)
+                cur = (f, c, f if u is None else u)
+            except ValueError:
+                pass
+        x = cx(st['x'])
+        ch = make_static_channel(st['delays'], st['powers_dB'], cx(st['draw']))
+        tx = obj.modulate(x.copy())
+        rx = ch.corrupt_data(np.array(tx, copy=True))
+        ir = ch.get_last_impulse_response()
+        taps0 = np.array(ir.tap_values_sparse, copy=True)
+        H0 = np.array(ir.get_freq_response(cur[0]), copy=True)
+        attrs0 = dict(vars(obj))
+        for q in st['queries']:
+            try:
+                _do_query(q, obj, eqz, ch, ir, x, len(st['x']))
+            except Exception as e:
+                return 'R11:%s:raises' % q, 'step %d: %s: %s' % (k, type(e).__name__, str(e)[:120])
+            if dict(vars(obj)) != attrs0 or eqz._ofdm_obj is not obj:
+                return 'R11:%s:attributes-changed' % q, 'step %d: %r -> %r' % (k, attrs0, dict(vars(obj)))
+            if not _eq_arr(ir.tap_values_sparse, taps0) or not _eq_arr(ir.get_freq_response(cur[0]), H0) \
+                    or ch.get_last_impulse_response() is not ir:
+                return 'R11:%s:impulse-response-changed' % q, 'step %d' % k
+        fresh = o.OFDM(*cur)
+        dem = obj.demodulate(np.array(rx[:tx.size], copy=True))
+        out = eqz.equalize_data(np.array(dem, copy=True), ir)
+        dem2 = fresh.demodulate(np.array(rx[:tx.size], copy=True))
+        out2 = o.OfdmOneTapEqualizer(fresh).equalize_data(np.array(dem2, copy=True), ir)
+        if not (_eq_arr(obj.modulate(x.copy()), fresh.modulate(x.copy())) and _eq_arr(dem, dem2) and _eq_arr(out, out2)):
+            return 'R11:later-result-differs-from-fresh', 'step %d after queries %r' % (k, st['queries'])
+    return None
+
+
+def o_order(case):
+    """R12: the order in which the paths of a profile are listed is not part of its logical value"""
+    o = _ofdm()
+    obj = o.OFDM(case['fft'], case['cp'], case['used'])
+    x = cx(case['x'])
+    tx = obj.modulate(x.copy())
+    outs = []
+    for perm in case['perms']:
+        d = [case['delays'][i] for i in perm]
+        p = [case['powers_dB'][i] for i in perm]
+        try:
+            ch = make_static_channel(d, p, cx(case['draw']))
+            rx = ch.corrupt_data(np.array(tx, copy=True))
+            ir = ch.get_last_impulse_response()
+        except Exception as e:
+            return 'R12:path-order:raises', 'order %r: %s' % (perm, type(e).__name__)
+        outs.append((list(np.asarray(ir.tap_indexes_sparse)), np.array(ir.tap_values_sparse[:, :1]), rx))
+    for k in range(1, len(outs)):
+        if outs[k][0] != outs[0][0] or not np.allclose(outs[k][1], outs[0][1], rtol=1e-12, atol=0) \
+                or outs[k][2].shape != outs[0][2].shape or not np.allclose(outs[k][2], outs[0][2], rtol=1e-11, atol=1e-300):
+            return 'R12:path-order', 'listing order %r gives another channel than %r' % (case['perms'][k], case['perms'][0])
+    return None
+
+
+def o_derived(case):
+    """R13: objects derived from others stay what they were: an impulse response taken from the channel still equalises
+    ITS block after the channel moved on; scaled copies, returned arrays and discretised child profiles are independent"""
+    o = _ofdm()
+    fading, _ = _fading()
+    f, c, u = case['fft'], case['cp'], case['used']
+    obj = o.OFDM(f, c, u)
+    eqz = o.OfdmOneTapEqualizer(obj)
+    x1, x2 = cx(case['x']), cx(case['x2'])
+    ch = make_static_channel(case['delays'], case['powers_dB'], cx(case['draw']))
+    try:
+        tx1 = obj.modulate(x1.copy())
+        rx1 = ch.corrupt_data(np.array(tx1, copy=True))
+        ir1 = ch.get_last_impulse_response()
+        dem1 = obj.demodulate(np.array(rx1[:tx1.size], copy=True))
+        now = eqz.equalize_data(np.array(dem1, copy=True), ir1)
+        taps1 = np.array(ir1.tap_values_sparse, copy=True)
+        scaled_ir = 2.0 * ir1
+        half = eqz.equalize_data(np.array(dem1, copy=True), scaled_ir)
+        # the parent moves on: another block (other length), a re-configured OFDM object and back
+        ch.corrupt_data(np.array(obj.modulate(x2.copy()), copy=True))
+        ir2 = ch.get_last_impulse_response()
+        H = ir1.get_freq_response(f)
+        H[...] = 7.0
+        later = eqz.equalize_data(np.array(dem1, copy=True), ir1)
+        half_later = eqz.equalize_data(np.array(dem1, copy=True), scaled_ir)
+    except Exception as e:
+        return 'R13:raises', '%s: %s' % (type(e).__name__, str(e)[:150])
+    if ir2 is ir1 or not _eq_arr(ir1.tap_values_sparse, taps1) or ir1.num_samples != tx1.size:
+        return 'R13:impulse-response-changed-by-later-transmission', 'num_samples %d, block had %d' % (ir1.num_samples, tx1.size)
+    if not _eq_arr(now, later):
+        return 'R13:earlier-impulse-response-no-longer-equalises-its-block', 'after a later corrupt_data'
+    fin = np.isfinite(now)
+    if not np.allclose(half[fin], now[fin] / 2.0, rtol=1e-12, atol=0) or not _eq_arr(half, half_later) \
+            or np.shares_memory(scaled_ir.tap_values_sparse, ir1.tap_values_sparse):
+        return 'R13:scaled-copy', '(2*ir) must halve the equalised symbols and stay independent of ir'
+    # discretised child of a profile: the parent is untouched, the child describes the same channel
+    p = np.array(case['powers_dB'], dtype=float)
+    d = np.array(case['delays'], dtype=float)
+    parent = fading.TdlChannelProfile(p, d, 'parent')
+    child = parent.get_discretize_profile(1.0)
+    if parent.is_discretized or not _eq_arr(parent.tap_delays, d) or not _eq_arr(parent.tap_powers_dB, p) \
+            or not child.is_discretized or child.Ts != 1.0:
+        return 'R13:discretised-child-changed-parent', 'parent Ts %r' % (parent.Ts,)
+    idx, pw = expected_discretisation(case['delays'], case['powers_dB'])
+    if [int(v) for v in child.tap_delays] != idx or not np.allclose(child.tap_powers_linear, pw, rtol=1e-9, atol=0):
+        return 'R13:discretised-child', 'taps %r powers %r' % (list(child.tap_delays), list(child.tap_powers_linear))
+    return None
+
+
+ORACLES = {'forms': o_forms, 'indexarg': o_indexarg, 'nomutate': o_nomutate, 'order': o_order, 'derived': o_derived,
+           'types': o_types, 'layout': o_layout, 'immut': o_immut, 'rejected': o_rejected,
            'onetap_history': o_onetap_history, 'history': o_history, 'constructor': o_constructor, 'roundtrip': o_roundtrip, 'structure': o_structure,
            'guards': o_guards, 'onetap': o_onetap}
 
@@ -886,7 +1268,7 @@ def gen_profile(rng, max_memory, ntaps_max=6, force=False, order=None):
     draw = [[rng.gauss(), rng.gauss()] for _ in delays]
     if order is None and rng.chance(0.3):
         order = rng.choice(PROFILE_ORDERS)
-    if order:
+    if order and order != 'sorted':
         delays, powers = reorder_profile(rng, delays, powers, order)
     return delays, powers, draw
 
@@ -1442,6 +1824,198 @@ def corr_robust(ctx, b, i):
         ctx.branch('R5:corr:deep-notch')
 
 
+def _pair_request(ctx, b, name, tag, init, ops, checks, final=None):
+    """send one history to the model's pair state machine; `checks[k](reply_k)` compares output k"""
+    def on_reply(r):
+        parts = r.split('|')
+        if len(parts) != len(checks) + 1:
+            ctx.corr(name, tag, '%d outputs' % (len(checks) + 1), '%d outputs: %s' % (len(parts), r[:80]))
+            return
+        for chk, rep in zip(checks, parts):
+            chk(rep)
+        if final is not None:
+            ctx.corr(name + '.final-state', tag, final, parts[-1], key=(name, 'final', tag))
+    b.add('pair %d %d %d %s' % (init[0], init[1], init[2], ';'.join(ops)), on_reply)
+
+
+def _num_check(ctx, name, tag, arr, tol):
+    arr = np.asarray(arr, dtype=complex).ravel()
+
+    def chk(r):
+        if r.startswith('error') or r == 'ok':
+            return ctx.corr(name, tag, 'value', r, key=(name, tag))
+        m = parse_cx(r)
+        if m.shape != arr.shape:
+            return ctx.corr(name, tag, 'shape %s' % (arr.shape,), 'shape %s' % (m.shape,), key=(name, tag))
+        good = np.isfinite(arr) & np.isfinite(m) & (np.abs(arr) < 1e6)
+        return ctx.corr(name, tag, 'match', near(arr[good], m[good], tol) or 'match', key=(name, tag, arr.size))
+    return chk
+
+
+def corr_robust2(ctx, b, i):
+    """R8-R14 in the correspondence: the implementation is driven through other argument forms, index types, with
+    queries between the mutators, with derived objects used late, with re-ordered paths and with large counts; the
+    model sees the logical history only"""
+    rng = ctx.rng
+    o = _ofdm()
+    mode = i % 6
+    tag = 'rb2-%d' % i
+    if mode in (0, 1):
+        # R8 / R9: configuration reached through another argument form / with another integer type
+        while True:
+            f, c, u = gen_config(rng, 24)
+            if mode == 1 or True:
+                break
+        form = rng.choice(OFDM_FORMS)
+        if form.startswith('default') or form == 'setter-default':
+            f += f % 2
+            u, c = f, min(c, f)
+        other = gen_config(rng, 24)
+        if mode == 0:
+            obj = _build_ofdm(o, form, f, c, u, other)
+            ops, init = [], (f, c, u)
+            if form.startswith('setter') or form == 'replaced-twice':
+                init = other
+                ops = ['set:%d:%d:%d' % (f, c, u)]
+            cls = 'R8'
+        else:
+            ty = rng.choice(['intp', 'int64', 'uint16', '0-d-array', 'fresh-int'])
+            conv = (lambda v: np.array(v)) if ty == '0-d-array' else (lambda v: int(str(v))) if ty == 'fresh-int' \
+                else getattr(np, ty)
+            obj = o.OFDM(conv(f), conv(c), conv(u))
+            ops, init, cls = [], (f, c, u), 'R9'
+        checks = [lambda r: ctx.corr('robust2.set_parameters', tag, 'ok', r)] * len(ops)
+        eqz = o.OfdmOneTapEqualizer(ofdm_obj=obj)
+        n = max(1, gen_length(rng, u))
+        x = cx(gen_symbols(rng, n, integer=False))
+        delays, powers, draw = gen_profile(rng, min(c, f - 1), force=True)
+        ch = make_static_channel(delays, powers, cx(draw))
+        sf = core.f2s(math.sqrt(float(obj._calculate_power_scale())))
+        tx = obj.modulate(input_signal=x.copy())
+        rx = ch.corrupt_data(np.array(tx, copy=True))
+        ir = ch.get_last_impulse_response()
+        dem = obj.demodulate(received_signal=np.array(rx[:tx.size], copy=True))
+        out = eqz.equalize_data(impulse_response=ir, data=np.array(dem, copy=True))
+        d = ','.join(str(int(v)) for v in np.asarray(ir.tap_indexes_sparse))
+        vals = np.asarray(ir.tap_values_sparse, dtype=complex)
+        ops += ['idx', 'zp:%d' % n, 'mod:%s:%s' % (sf, fl(x)), 'demod:%s:%s' % (sf, fl(rx[:tx.size])),
+                'eq:%s:%d:%s:%s' % (d, vals.shape[1], fl(vals), fl(dem))]
+        checks += [_num_check(ctx, 'robust2.get_used_subcarrier_indexes', tag, obj.get_used_subcarrier_indexes(), 0.0),
+                   _num_check(ctx, 'robust2._calc_zeropad', tag, np.array(obj._calc_zeropad(n)), 0.0),
+                   _num_check(ctx, 'robust2.modulate', tag, tx, TOL), _num_check(ctx, 'robust2.demodulate', tag, dem, TOL),
+                   _num_check(ctx, 'robust2.equalize_data', tag, out, 1e-7)]
+        _pair_request(ctx, b, 'robust2.' + cls, tag, init, ops, checks,
+                      '%d %d %d' % (obj.fft_size, obj.cp_size, obj.num_used_subcarriers))
+        ctx.branch(cls + ':corr')
+        if mode == 1:
+            # sizes above 256 as distinct python ints / numpy ints: index map and padding only (the O(N^3) list DFT of the
+            # model is not run at this size)
+            F, C, U = rng.choice([(512, 300, 512), (300, 257, 258), (258, 0, 258)])
+            big = o.OFDM(int(str(F)), np.intp(C), int(str(U)))
+            _pair_request(ctx, b, 'robust2.R9.big', tag + 'b', (F, C, U), ['idx', 'zp:%d' % (U + 1)],
+                          [_num_check(ctx, 'robust2.get_used_subcarrier_indexes', tag + 'b', big.get_used_subcarrier_indexes(), 0.0),
+                           _num_check(ctx, 'robust2._calc_zeropad', tag + 'b', np.array(big._calc_zeropad(U + 1)), 0.0)],
+                          '%d %d %d' % (F, C, U))
+            ctx.branch('R9:corr:size>256')
+    elif mode == 2:
+        # R11: queries between the mutators
+        init, sets = gen_history(rng, k=rng.randint(1, 3))
+        hc = history_case(rng, init, sets)
+        obj = o.OFDM(*init)
+        eqz = o.OfdmOneTapEqualizer(obj)
+        ops, checks = [], []
+        for st in hc['steps']:
+            f, c, u = st['set']
+            try:
+                obj.set_parameters(f, c, u)
+                flag = 'ok'
+            except ValueError:
+                flag = 'error:ValueError'
+            ops.append('set:%d:%d:%s' % (f, c, 'none' if u is None else u))
+            checks.append(lambda r, flag=flag: ctx.corr('robust2.set_parameters', tag, flag, r))
+            x = cx(st['x'] if st['x'] else gen_symbols(rng, 2, integer=False))
+            ch = make_static_channel(st['delays'], st['powers_dB'], cx(st['draw']))
+            tx0 = obj.modulate(x.copy())
+            ch.corrupt_data(np.array(tx0, copy=True))
+            ir = ch.get_last_impulse_response()
+            qs = list(QUERIES[:-1])
+            rng.shuffle(qs)
+            for q in qs[:rng.randint(4, 10)]:
+                _do_query(q, obj, eqz, ch, ir, x, x.size)
+            sf = core.f2s(math.sqrt(float(obj._calculate_power_scale())))
+            ops += ['idx', 'zp:%d' % x.size, 'mod:%s:%s' % (sf, fl(x))]
+            checks += [_num_check(ctx, 'robust2.get_used_subcarrier_indexes', tag, obj.get_used_subcarrier_indexes(), 0.0),
+                       _num_check(ctx, 'robust2._calc_zeropad', tag, np.array(obj._calc_zeropad(x.size)), 0.0),
+                       _num_check(ctx, 'robust2.modulate', tag, obj.modulate(x.copy()), TOL)]
+        _pair_request(ctx, b, 'robust2.R11', tag, init, ops, checks,
+                      '%d %d %d' % (obj.fft_size, obj.cp_size, obj.num_used_subcarriers))
+        ctx.branch('R11:corr')
+    elif mode == 3:
+        # R13: an impulse response taken from the channel is used after the channel (and the OFDM object) moved on
+        f, c, u = gen_config(rng, 24)
+        obj = o.OFDM(f, c, u)
+        eqz = o.OfdmOneTapEqualizer(obj)
+        delays, powers, draw = gen_profile(rng, min(c, f - 1), force=True)
+        ch = make_static_channel(delays, powers, cx(draw))
+        x = cx(gen_symbols(rng, max(1, gen_length(rng, u)), integer=False))
+        tx = obj.modulate(x.copy())
+        rx = ch.corrupt_data(np.array(tx, copy=True))
+        ir1 = ch.get_last_impulse_response()
+        vals1 = np.array(ir1.tap_values_sparse, dtype=complex, copy=True)
+        d1 = ','.join(str(int(v)) for v in np.asarray(ir1.tap_indexes_sparse))
+        dem = obj.demodulate(np.array(rx[:tx.size], copy=True))
+        ch.corrupt_data(np.array(obj.modulate(cx(gen_symbols(rng, u + 1, integer=False))), copy=True))    # the parent moves on
+        (3.0 * ir1)
+        late = eqz.equalize_data(np.array(dem, copy=True), ir1)
+        b.add('eq %d %d %d %s %d %s %s' % (f, c, u, d1, vals1.shape[1], fl(vals1), fl(dem)),
+              _num_check(ctx, 'robust2.equalize_data.earlier-impulse-response', tag, late, 1e-7))
+        ctx.branch('R13:corr')
+    elif mode == 4:
+        # R12 / R10: the same paths listed in two orders, once as integer-dtype arrays: one model channel output
+        f, c, u = gen_config(rng, 24)
+        while c < 3 or f < 4:
+            f, c, u = gen_config(rng, 24)
+        delays, powers, draw = gen_profile(rng, min(c, f - 1), force=True, order='sorted')
+        powers = [float(round(v)) for v in powers]
+        obj = o.OFDM(f, c, u)
+        tx = obj.modulate(cx(gen_symbols(rng, u + 1, integer=False)))
+        ch = make_static_channel(delays, powers, cx(draw))
+        ch.corrupt_data(np.array(tx, copy=True))
+        ir = ch.get_last_impulse_response()
+        vals = np.asarray(ir.tap_values_sparse, dtype=complex)
+        line = 'corrupt %s %d %s %s' % (','.join(str(int(v)) for v in ir.tap_indexes_sparse), vals.shape[1], fl(vals), fl(tx))
+        pm = list(range(len(delays)))
+        rng.shuffle(pm)
+        rx_b = make_static_channel([delays[k] for k in pm], [powers[k] for k in pm], cx(draw)).corrupt_data(np.array(tx, copy=True))
+        rx_c = _build_channel('int-tap-arrays', delays, powers, cx(draw)).corrupt_data(np.array(tx, copy=True))
+        b.add(line, _num_check(ctx, 'robust2.corrupt_data.other-listing-order', tag, rx_b, TOL))
+        b.add(line, _num_check(ctx, 'robust2.corrupt_data.int-tap-arrays', tag, rx_c, TOL))
+        ctx.branch('R12:corr')
+        ctx.branch('R10:corr')
+    else:
+        # R14: large counts - taps, OFDM symbols, input length, fft size (index layer)
+        ntaps = rng.choice([257, 258, 300])
+        tx = cx(gen_symbols(rng, 40, integer=False))
+        ch = make_static_channel(list(range(ntaps)), [round(-rng.uniform(0, 30), 3) for _ in range(ntaps)],
+                                 cx([[rng.gauss(), rng.gauss()] for _ in range(ntaps)]))
+        rx = ch.corrupt_data(np.array(tx, copy=True))
+        ir = ch.get_last_impulse_response()
+        vals = np.asarray(ir.tap_values_sparse, dtype=complex)
+        b.add('corrupt %s %d %s %s' % (','.join(str(int(v)) for v in ir.tap_indexes_sparse), vals.shape[1], fl(vals), fl(tx)),
+              _num_check(ctx, 'robust2.corrupt_data.taps>256', tag, rx, TOL))
+        nsym = rng.choice([257, 258, 300])
+        obj = o.OFDM(4, 1, 2)
+        x = cx(gen_symbols(rng, 2 * nsym - 1, integer=True))
+        sf = core.f2s(math.sqrt(float(obj._calculate_power_scale())))
+        txs = obj.modulate(x.copy())
+        b.add('mod 4 1 2 %s %s' % (sf, fl(x)), _num_check(ctx, 'robust2.modulate.symbols>256', tag, txs, TOL))
+        b.add('demod 4 1 2 %s %s' % (sf, fl(txs)),
+              _num_check(ctx, 'robust2.demodulate.symbols>256', tag, obj.demodulate(np.array(txs, copy=True)), TOL))
+        F = rng.choice([257, 258, 300])
+        corr_index_config(ctx, b, F, rng.choice([0, 1, F]), F - F % 2 if rng.chance(0.5) else 2 * rng.randint(1, F // 2), [F + 1])
+        ctx.branch('R14:corr')
+
+
 def corr_pair_history(ctx, b, case, tag):
     """the same history on ONE real OFDM object + ONE long-lived equaliser and on the model's pair state
     machine (`pair` command): every output and the final attributes are compared"""
@@ -1557,6 +2131,11 @@ def correspondence(ctx, small, nparams, nrand, fmax, nnum, nchan):
         guarded(ctx, 'channel-layer', i, corr_channel, ctx, b, i, 32)
     for i in range(max(36, nchan)):
         guarded(ctx, 'robustness', i, corr_robust, ctx, b, i)
+    for i in range(18 if nchan <= 40 else 120):
+        guarded(ctx, 'robustness2', i, corr_robust2, ctx, b, i)
+    # the token layer once on an input of 2^16 + 1 symbols
+    guarded(ctx, 'index-layer', (4, 1, 2, 65537), corr_index_config, ctx, b, 4, 1, 2, [65537])
+    ctx.branch('R14:corr:input>2^16')
     # histories on one OFDM object with one long-lived equaliser
     for i, (init, sets) in enumerate(STRUCTURED_HISTORIES):
         guarded(ctx, 'pair-history', 's%d' % i, corr_pair_history, ctx, b, history_case(ctx.rng, init, sets), 's%d' % i)
@@ -1684,10 +2263,114 @@ def robust_oracles(ctx, quick):
     ctx.branch('R7:oracle')
 
 
+def robust2_oracles(ctx, quick):
+    """R8-R14 on the real code, each class with its own branch"""
+    rng = ctx.rng
+
+    def base(fmax=40, all_used=False, min_cp=0, min_taps=1):
+        while True:
+            fft, cp, used = gen_config(rng, fmax)
+            if all_used:
+                fft += fft % 2
+                used = fft
+                cp = min(cp, fft)
+            if cp >= min_cp and min(cp, fft - 1) + 1 >= min_taps:
+                break
+        delays, powers, draw = gen_profile(rng, min(cp, fft - 1), force=True, order='sorted' if min_taps > 1 else None)
+        n = max(1, gen_length(rng, used))
+        return {'fft': fft, 'cp': cp, 'used': used, 'x': gen_symbols(rng, n, integer=False),
+                'delays': delays, 'powers_dB': powers, 'draw': draw}
+    # R8 argument forms / configuration paths (R10: integer tap arrays)
+    for form in OFDM_FORMS + CHANNEL_FORMS:
+        for _ in range(1 if quick else 6):
+            c = base(all_used=form.startswith('default') or form == 'setter-default')
+            c['form'] = form
+            c['other'] = list(gen_config(rng, 40))
+            if form == 'int-tap-arrays':
+                c['powers_dB'] = [float(round(v)) for v in c['powers_dB']]
+                c['delays'] = [int(round(v)) for v in c['delays']]
+            run_oracle(ctx, 'forms', c, key=('R8', form, c['fft'], c['cp'], c['used']))
+            ctx.branch('R10:oracle' if form == 'int-tap-arrays' else 'R8:oracle')
+    # R9 index / count arguments
+    for ty in INDEX_TYPES:
+        cfgs = [None] + ([(512, 300, 512), (300, 257, 258)] if ty in ('intp', 'int64', 'uint16', '0-d-array', 'fresh-int') else [])
+        for cfg in (cfgs if not quick or ty in ('fresh-int', 'intp') else cfgs[:1]):
+            c = base()
+            if cfg:
+                c.update(fft=cfg[0], cp=cfg[1], used=cfg[2])
+                c['delays'], c['powers_dB'], c['draw'] = gen_profile(rng, 12, force=True)
+                c['x'] = gen_symbols(rng, cfg[2] + 3, integer=False)
+            c['type'] = ty
+            run_oracle(ctx, 'indexarg', c, key=('R9', ty, c['fft']))
+            ctx.branch('R9:oracle' + (':size>256' if c['fft'] > 256 else ''))
+    # R11 non-mutating API inside histories
+    plotted = False
+    for i in range(5 if quick else 30):
+        init, sets = gen_history(rng, k=rng.randint(1, 3))
+        hc = history_case(rng, init, sets)
+        for st in hc['steps']:
+            qs = list(QUERIES[:-1])
+            rng.shuffle(qs)
+            st['queries'] = qs[:rng.randint(3, 9)]
+            if not plotted:
+                st['queries'].append('ir.plot')
+                plotted = True
+            if len(st['x']) == 0:
+                st['x'] = gen_symbols(rng, 3, integer=False)
+        run_oracle(ctx, 'nomutate', hc, key=('R11', i))
+        ctx.branch('R11:oracle')
+    # R12 listing order of the paths
+    for i in range(4 if quick else 25):
+        c = base(min_cp=3, min_taps=3)
+        k = len(c['delays'])
+        perms = [list(range(k))]
+        for _ in range(2):
+            pm = list(range(k))
+            rng.shuffle(pm)
+            perms.append(pm)
+        c['perms'] = perms
+        run_oracle(ctx, 'order', c, key=('R12', i))
+        ctx.branch('R12:oracle')
+    # R13 derived objects
+    for i in range(5 if quick else 30):
+        c = base()
+        c['x2'] = gen_symbols(rng, max(1, gen_length(rng, c['used'])) + 1, integer=False)
+        run_oracle(ctx, 'derived', c, key=('R13', i))
+        ctx.branch('R13:oracle')
+    # R14 scale in counts
+    for fft in ([rng.choice([257, 258, 300])] if quick else [257, 258, 300]):
+        used = fft - fft % 2 if rng.chance(0.5) else 2 * rng.randint(1, fft // 2)
+        case = {'fft': fft, 'cp': rng.choice([0, 1, fft]), 'used': used, 'x': gen_symbols(rng, used + 1, integer=False)}
+        for call in ('roundtrip', 'structure') + (('guards',) if used < fft else ()):
+            run_oracle(ctx, call, case, key=('R14-fft', call, fft))
+        ctx.branch('R14:oracle:fft')
+    for nsym in ([rng.choice([257, 258, 300])] if quick else [257, 258, 300]):
+        case = {'fft': 8, 'cp': 2, 'used': 6, 'x': gen_symbols(rng, 6 * nsym - 1, integer=True)}
+        for call in ('roundtrip', 'structure', 'guards'):
+            run_oracle(ctx, call, case, key=('R14-sym', call, nsym))
+        ctx.branch('R14:oracle:symbols')
+    case = {'fft': 4, 'cp': 1, 'used': 2, 'x': gen_symbols(rng, 65537, integer=True)}
+    for call in ('roundtrip', 'structure'):
+        run_oracle(ctx, call, case, key=('R14-len', call))
+    ctx.branch('R14:oracle:input>2^16')
+    for ntaps in ([rng.choice([257, 258, 300])] if quick else [257, 258, 300]):
+        delays = list(range(ntaps))
+        case = {'fft': 512, 'cp': 300, 'used': rng.choice([512, 400]), 'x': gen_symbols(rng, 7, integer=False),
+                'delays': delays, 'powers_dB': [round(-rng.uniform(0, 30), 3) for _ in delays],
+                'draw': [[rng.gauss(), rng.gauss()] for _ in delays]}
+        run_oracle(ctx, 'onetap', case, key=('R14-taps', ntaps))
+        ctx.branch('R14:oracle:taps')
+    if not quick:
+        case = {'fft': 65537, 'cp': 16, 'used': 65536, 'x': gen_symbols(rng, 65536, integer=False)}
+        for call in ('roundtrip', 'structure'):
+            run_oracle(ctx, call, case, key=('R14-fft16', call))
+
+
 def oracles(ctx, small, nrand, fmax, nchan):
     rng = ctx.rng
     run_corpus(ctx)
     robust_oracles(ctx, ctx.tier == 'quick')
+    robust2_oracles(ctx, ctx.tier == 'quick')
     # constructor table
     for fft in range(0, min(small, 10) + 1):
         for cp in range(-1, fft + 2):
@@ -1769,6 +2452,10 @@ def check(ctx):
                              'pair:history', 'pair:roundtrip', 'pair:set:ok', 'pair:set:error',
                              'profile:reversed:corr', 'profile:unsorted:corr', 'profile:colliding:corr',
                              'profile:reversed:oracle', 'profile:unsorted:oracle', 'profile:colliding:oracle',
+                             'R8:corr', 'R9:corr', 'R9:corr:size>256', 'R10:corr', 'R11:corr', 'R12:corr', 'R13:corr', 'R14:corr',
+                             'R14:corr:input>2^16', 'R8:oracle', 'R9:oracle', 'R9:oracle:size>256', 'R10:oracle', 'R11:oracle',
+                             'R12:oracle', 'R13:oracle', 'R14:oracle:fft', 'R14:oracle:symbols', 'R14:oracle:input>2^16',
+                             'R14:oracle:taps',
                              'R1:corr', 'R2:corr', 'R3:corr', 'R4:corr', 'R5:corr', 'R5:corr:deep-notch', 'R6:corr', 'R7:corr',
                              'R1:oracle:param', 'R1:oracle:array', 'R2:oracle', 'R3:oracle', 'R4:oracle', 'R5:oracle:sizes',
                              'R5:oracle:single-path', 'R5:oracle:zero-input', 'R5:oracle:deep-notch',
@@ -1781,7 +2468,17 @@ def check(ctx):
             raise
         ctx.notes.append('correspondence skipped: %s' % e)
         ctx.required_branches = []
-    oracles(ctx, 10 if quick else 24, 100 if quick else 1500, 128 if quick else 300, 60 if quick else 1000)
+    try:
+        oracles(ctx, 10 if quick else 24, 100 if quick else 1500, 128 if quick else 300, 60 if quick else 1000)
+    except core.Infra:
+        raise
+    except Exception as e:     # an exception of the LIBRARY that escaped an oracle wrapper is a failing input, not exit 2
+        import traceback
+        tb = traceback.extract_tb(e.__traceback__)
+        lib = [fr for fr in tb if 'pyphysim' in fr.filename]
+        ctx.fail('library-exception', 'exception:' + type(e).__name__,
+                 {'where': '%s:%s' % (lib[-1].filename, lib[-1].lineno) if lib else str(tb[-1].name), 'harness_step': tb[1].name if len(tb) > 1 else ''},
+                 '%s: %s' % (type(e).__name__, str(e)[:200]))
     ctx.exhaustive = False    # the property's space is infinite; what IS complete is listed below
     ctx.extra['exhaustive_scopes'] = ('index layer (used-index list, zero padding, prepare, add/remove CP, gather) on integer '
                                       'tokens for EVERY valid (fft <= %d, cp <= fft, even used <= fft); set_parameters guard for '
